@@ -1153,58 +1153,131 @@ func (p *Program) chunkIdiomOf(fd *ast.FuncDecl) *chunkIdiom {
 			ix, ok := ast.Unparen(x).(*ast.IndexExpr)
 			return ok && objOf(info, ix.X) == sObj && objOf(info, ix.Index) == iObj
 		}
-		var pieces []string // "\x00" stands for the special byte found
 		var chunk *ast.CallExpr
 		writes := map[*ast.CallExpr]bool{}
 		okShape := true
-		for k, s2 := range body[2 : len(body)-1] {
-			es, ok := s2.(*ast.ExprStmt)
-			if !ok {
-				okShape = false
-				break
+		// the writes between the run and the reslice: pieces ("\x00" stands for the special byte found), possibly
+		// under tests of which special byte it is (if s[i] == '\'' { ... } else { ... } / switch s[i] { ... })
+		type step struct {
+			piece string
+			cond  bool
+			cases map[byte][]step
+			dflt  []step
+		}
+		var parseSteps func(list []ast.Stmt, top bool) []step
+		var parseIf func(is *ast.IfStmt) []step
+		byteOf := func(x ast.Expr) (byte, bool) {
+			v, isC := constInt(info, x)
+			if !isC || v < 0 || v > 127 {
+				return 0, false
 			}
-			wc, ok := es.X.(*ast.CallExpr)
-			if !ok || len(wc.Args) != 1 {
+			return byte(v), true
+		}
+		parseIf = func(is *ast.IfStmt) []step {
+			cond, isB := ast.Unparen(is.Cond).(*ast.BinaryExpr)
+			if is.Init != nil || !isB || cond.Op != token.EQL || !isSI(cond.X) {
 				okShape = false
-				break
+				return nil
 			}
-			sel, ok := ast.Unparen(wc.Fun).(*ast.SelectorExpr)
-			if !ok || !isBuilder(info, sel.X) {
+			b, isByte := byteOf(cond.Y)
+			if !isByte {
 				okShape = false
-				break
+				return nil
 			}
-			arg := ast.Unparen(wc.Args[0])
-			switch {
-			case k == 0:
-				// sb.WriteString(s[:i])
-				sl, isSl := arg.(*ast.SliceExpr)
-				if !isSl || sel.Sel.Name != "WriteString" || sl.Low != nil || sl.Max != nil || objOf(info, sl.X) != sObj || objOf(info, sl.High) != iObj {
-					okShape = false
-				}
-				chunk = wc
-			case sel.Sel.Name == "WriteByte" && isSI(arg):
-				pieces = append(pieces, "\x00")
-			case sel.Sel.Name == "WriteByte" || sel.Sel.Name == "WriteRune":
-				v, isC := constInt(info, arg)
-				if !isC || v < 0 || v > 127 {
-					okShape = false
-				}
-				pieces = append(pieces, string(rune(v)))
-			case sel.Sel.Name == "WriteString":
-				cs, isS := constString(info, arg)
-				if !isS {
-					okShape = false
-				}
-				pieces = append(pieces, cs)
+			st := step{cond: true, cases: map[byte][]step{b: parseSteps(is.Body.List, false)}}
+			switch el := is.Else.(type) {
+			case nil:
+			case *ast.BlockStmt:
+				st.dflt = parseSteps(el.List, false)
+			case *ast.IfStmt:
+				st.dflt = parseIf(el)
 			default:
 				okShape = false
 			}
-			writes[wc] = true
-			if !okShape {
-				break
-			}
+			return []step{st}
 		}
-		if !okShape || chunk == nil || len(pieces) == 0 {
+		parseSteps = func(list []ast.Stmt, top bool) []step {
+			var out []step
+			for k, s2 := range list {
+				if !okShape {
+					return out
+				}
+				switch v := s2.(type) {
+				case *ast.IfStmt:
+					out = append(out, parseIf(v)...)
+					continue
+				case *ast.SwitchStmt:
+					if v.Init != nil || v.Tag == nil || !isSI(v.Tag) {
+						okShape = false
+						return out
+					}
+					st := step{cond: true, cases: map[byte][]step{}}
+					for _, cc := range v.Body.List {
+						cl := cc.(*ast.CaseClause)
+						body := parseSteps(cl.Body, false)
+						if cl.List == nil {
+							st.dflt = body
+							continue
+						}
+						for _, e := range cl.List {
+							b, isByte := byteOf(e)
+							if !isByte {
+								okShape = false
+								return out
+							}
+							st.cases[b] = body
+						}
+					}
+					out = append(out, st)
+					continue
+				}
+				es, ok := s2.(*ast.ExprStmt)
+				if !ok {
+					okShape = false
+					return out
+				}
+				wc, ok := es.X.(*ast.CallExpr)
+				if !ok || len(wc.Args) != 1 {
+					okShape = false
+					return out
+				}
+				sel, ok := ast.Unparen(wc.Fun).(*ast.SelectorExpr)
+				if !ok || !isBuilder(info, sel.X) {
+					okShape = false
+					return out
+				}
+				arg := ast.Unparen(wc.Args[0])
+				switch {
+				case top && k == 0:
+					// sb.WriteString(s[:i])
+					sl, isSl := arg.(*ast.SliceExpr)
+					if !isSl || sel.Sel.Name != "WriteString" || sl.Low != nil || sl.Max != nil || objOf(info, sl.X) != sObj || objOf(info, sl.High) != iObj {
+						okShape = false
+					}
+					chunk = wc
+				case sel.Sel.Name == "WriteByte" && isSI(arg):
+					out = append(out, step{piece: "\x00"})
+				case sel.Sel.Name == "WriteByte" || sel.Sel.Name == "WriteRune":
+					v, isC := constInt(info, arg)
+					if !isC || v < 0 || v > 127 {
+						okShape = false
+					}
+					out = append(out, step{piece: string(rune(v))})
+				case sel.Sel.Name == "WriteString":
+					cs, isS := constString(info, arg)
+					if !isS {
+						okShape = false
+					}
+					out = append(out, step{piece: cs})
+				default:
+					okShape = false
+				}
+				writes[wc] = true
+			}
+			return out
+		}
+		steps := parseSteps(body[2:len(body)-1], true)
+		if !okShape || chunk == nil || len(steps) == 0 {
 			continue
 		}
 		// s = s[i+1:]
@@ -1253,19 +1326,27 @@ func (p *Program) chunkIdiomOf(fd *ast.FuncDecl) *chunkIdiom {
 			continue
 		}
 		writes[rest] = true
-		ps := append([]string(nil), pieces...)
-		found = &chunkIdiom{loop: fs, param: sObj, special: special, chunk: chunk, rest: rest, writes: writes,
-			escape: func(c byte) string {
-				out := ""
-				for _, pc := range ps {
-					if pc == "\x00" {
-						out += string(rune(c))
+		var eval func(list []step, c byte) string
+		eval = func(list []step, c byte) string {
+			out := ""
+			for _, st := range list {
+				switch {
+				case st.cond:
+					if body, has := st.cases[c]; has {
+						out += eval(body, c)
 					} else {
-						out += pc
+						out += eval(st.dflt, c)
 					}
+				case st.piece == "\x00":
+					out += string(rune(c))
+				default:
+					out += st.piece
 				}
-				return out
-			}}
+			}
+			return out
+		}
+		found = &chunkIdiom{loop: fs, param: sObj, special: special, chunk: chunk, rest: rest, writes: writes,
+			escape: func(c byte) string { return eval(steps, c) }}
 	}
 	return found
 }
